@@ -107,12 +107,12 @@ def _shell_factors(wfn, rng):
     out = []
     for sh in wfn["shells"]:
         c = np.asarray(sh["coeffs"], dtype=float)
-        if len(c) == 1:
-            out.append(1.0 / abs(c[0]))  # a single primitive is printed with coefficient 1
+        if len(c) == 1 and (rng is None or rng.random() < 0.5):
+            out.append(1.0 / abs(c[0]))  # a single primitive is usually printed with coefficient 1 ...
         elif rng is None:
             out.append(1.0 / np.sqrt((c * c).sum()))  # library-like: sum c^2 = 1
-        else:
-            out.append(float(rng.choice([rng.uniform(0.35, 0.75), rng.uniform(1.35, 2.6)])))
+        else:  # ... but an uncontracted shell may carry an arbitrary factor as well (a contraction of length one)
+            out.append(float(rng.choice([rng.uniform(0.35, 0.75), rng.uniform(1.35, 2.6)])) / (abs(c[0]) if len(c) == 1 else 1.0))
     return out
 
 
